@@ -1,3 +1,116 @@
-(* temporary stub *)
-Theorem C13_stub : True. Proof. exact I. Qed.
-Print Assumptions C13_stub.
+(* Props/C13.v — property C13: the worst-knee and corner filters implement exactly their selection rules.
+   Only statements, each closed by `exact`, with its assumptions printed. *)
+From Coq Require Import List Arith Bool PrimFloat.
+From Knee Require Import Num NumFloat NpList OrdLaws Model.Filters Proofs.FiltersFacts.
+Import ListNotations.
+Local Open Scope num_scope.
+
+(* Tier S: the loop of filter_worst_knees = the declarative greedy running-minimum subsequence (defined by recursion
+   on prefixes); this equation is the predicate the implementation's output is judged with *)
+Theorem C13_worst_is_running_min : forall (N : Num) (pts : list (@point N)) ks,
+  filter_worst pts ks = running_min_spec (height pts) ks.
+Proof. exact (fun N pts => @worst_is_running_min N (height pts)). Qed.
+Print Assumptions C13_worst_is_running_min.
+
+(* Tier S, read forwards: the first knee is kept, then each knee whose height is <= the lowest (most recently) kept so far *)
+Theorem C13_worst_snoc : forall (N : Num) (h : nat -> T N) pre k,
+  filter_worst_h h (pre ++ [k]) =
+    match filter_worst_h h pre with
+    | [] => [k]
+    | kept => if h k <=?! h (last kept k) then kept ++ [k] else kept
+    end.
+Proof. exact @worst_snoc. Qed.
+Print Assumptions C13_worst_snoc.
+
+(* Tier S: order-preserving sublist that starts with the first knee *)
+Theorem C13_worst_sublist : forall (N : Num) (h : nat -> T N) ks,
+  sublistb (filter_worst_h h ks) ks = true /\ hd_error (filter_worst_h h ks) = hd_error ks.
+Proof. exact @worst_sublist. Qed.
+Print Assumptions C13_worst_sublist.
+
+(* idempotent — Tier S (stronger than the Tier O asked for: no order law is needed, NaN heights included) *)
+Theorem C13_worst_idempotent : forall (N : Num) (h : nat -> T N) ks,
+  filter_worst_h h (filter_worst_h h ks) = filter_worst_h h ks.
+Proof. exact @worst_idempotent. Qed.
+Print Assumptions C13_worst_idempotent.
+
+(* Tier O: when the heights form a total preorder a knee is kept iff its height is <= that of EVERY earlier knee *)
+Theorem C13_worst_is_prefix_min : forall (N : Num) (h : nat -> T N) (P : T N -> Prop),
+  TotalPreorderOn P -> forall ks, (forall k, In k ks -> P (h k)) ->
+  filter_worst_h h ks = prefix_min_spec h ks.
+Proof. exact @worst_is_prefix_min. Qed.
+Print Assumptions C13_worst_is_prefix_min.
+
+(* ... in particular on binary64 heights that are not NaN *)
+Theorem C13_worst_is_prefix_min_float : forall (pts : list (float * float)) ks,
+  (forall k, In k ks -> f_isnan (@height FloatNum pts k) = false) ->
+  @filter_worst FloatNum pts ks = @prefix_min_spec FloatNum (@height FloatNum pts) ks.
+Proof. exact worst_is_prefix_min_float. Qed.
+Print Assumptions C13_worst_is_prefix_min_float.
+
+(* Tier S: filter and selector return order-preserving sublists; a knee's membership is decided by the code's own
+   comparison of t with the IoU computed from the knee's neighbours IN THE CURVE; knees at either end of the curve
+   are kept by the filter and dropped by the selector *)
+Theorem C13_corner_membership : forall (N : Num) (pts : list (@point N)) (t : T N) ks k,
+  (In k (filter_corner pts ks t) <->
+     In k ks /\ (has_nb (length pts) k = false \/ (corner_iou pts k <?! t) = true)) /\
+  (In k (select_corner pts ks t) <->
+     In k ks /\ has_nb (length pts) k = true /\ (t <=?! corner_iou pts k) = true).
+Proof. exact @corner_membership. Qed.
+Print Assumptions C13_corner_membership.
+
+Theorem C13_corner_sublists : forall (N : Num) (pts : list (@point N)) (t : T N) ks,
+  sublistb (filter_corner pts ks t) ks = true /\ sublistb (select_corner pts ks t) ks = true.
+Proof. exact @corner_sublists. Qed.
+Print Assumptions C13_corner_sublists.
+
+(* Tier S: both are idempotent (the decision never depends on the other knees) *)
+Theorem C13_corner_idempotent : forall (N : Num) (pts : list (@point N)) (t : T N) ks,
+  filter_corner pts (filter_corner pts ks t) t = filter_corner pts ks t /\
+  select_corner pts (select_corner pts ks t) t = select_corner pts ks t.
+Proof. exact @corner_idempotent. Qed.
+Print Assumptions C13_corner_idempotent.
+
+(* Tier O on the compared values: where `p < t` is the negation of `p >= t` (no NaN) filter and selector partition the
+   knee list: both sublists, every knee in exactly one, selected iff t <= IoU, end knees in the filter.
+   corner_holdsb is the predicate the implementation's outputs are judged with *)
+Theorem C13_corner_partition : forall (N : Num) (pts : list (@point N)) (t : T N) ks,
+  (forall k, In k ks -> has_nb (length pts) k = true ->
+     (corner_iou pts k <?! t) = negb (t <=?! corner_iou pts k)) ->
+  corner_holdsb pts ks t (filter_corner pts ks t) (select_corner pts ks t) = true.
+Proof. exact @corner_partition. Qed.
+Print Assumptions C13_corner_partition.
+
+Theorem C13_corner_complement : forall (N : Num) (pts : list (@point N)) (t : T N) ks,
+  (forall k, In k ks -> has_nb (length pts) k = true ->
+     (corner_iou pts k <?! t) = negb (t <=?! corner_iou pts k)) ->
+  select_corner pts ks t = filter (fun k => negb (corner_keepb pts t k)) ks.
+Proof. exact @corner_complement. Qed.
+Print Assumptions C13_corner_complement.
+
+(* ... in particular on binary64 whenever t and the IoUs are not NaN *)
+Theorem C13_corner_partition_float : forall (pts : list (float * float)) (t : float) ks,
+  f_isnan t = false ->
+  (forall k, In k ks -> has_nb (length pts) k = true -> f_isnan (@corner_iou FloatNum pts k) = false) ->
+  @corner_holdsb FloatNum pts ks t (@filter_corner FloatNum pts ks t) (@select_corner FloatNum pts ks t) = true.
+Proof. exact corner_partition_float. Qed.
+Print Assumptions C13_corner_partition_float.
+
+(* non-vacuity.  Heights 4, 4 (tie: kept, <=), 5 (dropped), 3.5, 3, 3 (tie: kept).
+   IoUs of knees 1..6: 0, 0.5, 0.25, 1/12, 0, 0.5 — at t = 0.25 knee 3 is exactly on the threshold and goes to the
+   selector (>=); at the next double above it stays in the filter; knees 0 and 7 (curve ends) stay in the filter *)
+Definition ex_pts : list (float * float) := [(0,9); (1,4); (2,4); (3,5); (4,3.5); (6,3); (7,3); (8,0)]%float.
+Example C13_example :
+  @filter_worst FloatNum ex_pts [1; 2; 3; 4; 6; 7] = [1; 2; 4; 6; 7] /\
+  @running_min_spec FloatNum (@height FloatNum ex_pts) [1; 2; 3; 4; 6; 7] = [1; 2; 4; 6; 7] /\
+  @prefix_min_spec FloatNum (@height FloatNum ex_pts) [1; 2; 3; 4; 6; 7] = [1; 2; 4; 6; 7] /\
+  @corner_iou FloatNum ex_pts 3 = 0.25%float /\
+  @filter_corner FloatNum ex_pts [0; 1; 2; 3; 4; 6; 7] 0.25%float = [0; 1; 4; 7] /\
+  @select_corner FloatNum ex_pts [0; 1; 2; 3; 4; 6; 7] 0.25%float = [2; 3; 6] /\
+  @filter_corner FloatNum ex_pts [0; 1; 2; 3; 4; 6; 7] 0x1.0000000000001p-2%float = [0; 1; 3; 4; 7] /\
+  @select_corner FloatNum ex_pts [0; 1; 2; 3; 4; 6; 7] 0x1.0000000000001p-2%float = [2; 6] /\
+  @corner_holdsb FloatNum ex_pts [0; 1; 2; 3; 4; 6; 7] 0.25%float [0; 1; 4; 7] [2; 3; 6] = true /\
+  @corner_holdsb FloatNum ex_pts [0; 1; 2; 3; 4; 6; 7] 0.25%float [0; 1; 3; 4; 7] [2; 6] = false /\
+  @worst_holdsb FloatNum ex_pts [1; 2; 3; 4; 6; 7] [1; 2; 4; 6; 7] [1; 2; 4; 6; 7] = true /\
+  @worst_holdsb FloatNum ex_pts [1; 2; 3; 4; 6; 7] [1; 4; 6] [1; 4; 6] = false.
+Proof. vm_compute. repeat split. Qed.
